@@ -51,7 +51,7 @@ def cmp_cblog(exp_log, obs_cb, diffs):
                 diffs.append("callback #%d: validation of %s saw %d values, expected %d" % (i + 1, e["o"], len(ov), len(ev)))
 
 
-def check_parse_result(exp, line, diffs, aspects, pol):
+def check_parse_result(exp, line, diffs, aspects, pol, clean=True):
     """compare one parse's expected outcome with the driver's observation line"""
     st = exp["status"]
     if st == "unspec":
@@ -59,7 +59,9 @@ def check_parse_result(exp, line, diffs, aspects, pol):
     want_ret = 0 if st == "ok" else 1
     if line["ret"] != want_ret:
         diffs.append(("ret", "return code expected %d (%s) observed %d" % (want_ret, st, line["ret"])))
-    if "tree" in aspects:
+    # the properties fix the values after an ACCEPTED parse (C01); what a rejected parse leaves
+    # behind is only compared where a property says so (aspect 'tree_rejected', C10)
+    if ("tree" in aspects and st == "ok" and clean) or ("tree_rejected" in aspects and st == "fail" and clean):
         d = []
         cmp_sec(exp["obs"], line["ctx"].get("c1"), "", d, pol)
         diffs.extend(("tree", x) for x in d)
@@ -132,9 +134,12 @@ def replay(verdict, exe, res, aspects, pol=None, seed=0, renderings=("canonical"
         plines = [l for l in g["lines"] if l["cmd"] == "parsebuf"]
         if len(plines) != len(b["parses"]):
             raise ModelError("behaviour %s: expected %d parse observations, got %d" % (bid, len(b["parses"]), len(plines)))
+        clean = True
         for p, line in zip(b["parses"], plines):
             diffs = []
-            check_parse_result(p["exp"], line, diffs, aspects, pol)
+            check_parse_result(p["exp"], line, diffs, aspects, pol, clean)
+            if p["exp"]["status"] != "ok":
+                clean = False
             if diffs:
                 kinds = sorted(set(k for k, _ in diffs))
                 verdict.violation("%s:%s:%s" % (sigprefix, "+".join(kinds), desc),
